@@ -139,6 +139,8 @@ def main():
         mod.run(chk, ctx)
         if f.aliases:
             chk.analysed["parameter_aliases"] = ["%s: `%s` read as `%s` (renamed parameter, same position and type)" % x for x in f.aliases]
+        if f.function_aliases:
+            chk.analysed["function_aliases"] = ["%s read as %s (renamed: same module/impl, same signature, unique)" % x for x in f.function_aliases]
         if f.closure_aliases:
             chk.analysed["closure_aliases"] = ["%s read as %s (renumbered: reference closures embed uniquely by use signature)" % x for x in f.closure_aliases]
         if a.tier == "thorough" and not a.replay:
